@@ -1,6 +1,7 @@
 (* C06 commands of the extracted model (codes 6000 + sub).  Decoding / encoding only. *)
 From Coq Require Import List ZArith NArith Bool.
-From BS Require Import Base.Sexp Base.Types Model.Heap Model.Edit Model.Build Model.Construct Spec.Tree.
+From BS Require Import Base.Sexp Base.Types Model.EntitySubst Model.UnescapeLimit Model.Tokenizer Model.Heap Model.Edit Model.Build
+                       Model.Construct Model.ConstructStr Model.ConstructBytes Spec.Tree.
 Import ListNotations.
 Open Scope Z_scope.
 
@@ -134,5 +135,17 @@ Definition disp_c06 (sub : Z) (args : list sexp) : sexp :=
       L [c6_cres r; slist c6_warning ws]
   (* (6004 errors text) -> outcome bytes : str.encode("utf8", errors) *)
   | 4, e :: s :: _ => c6_outcome sstr (utf8_encode (gN e) (gstr s))
+  (* (6005 cfg text) -> (result warnings refused unescape-failed): the constructor on a str, nothing recorded:
+     Model.Tokenizer -> adapter -> feed() mapping -> retry loop, html.unescape = Model.UnescapeLimit.unescape_checked *)
+  | 5, c :: t :: _ =>
+      let text := gstr t in
+      let '(r, ws) := construct_str (c6_cfg c) blank_obj unescape_checked text in
+      L [c6_cres r; slist c6_warning ws; sbool (str_rejects unescape_checked text);
+         sbool (snd (fst (str_run unescape_checked text)))]
+  (* (6006 cfg bytes from_encoding? exclude) -> (result warnings): the constructor on bytes within the concrete codecs:
+     Model.Codecs.c_prepare_markup, then the string-level pipeline on the text it produced *)
+  | 6, c :: b :: fe :: ex :: _ =>
+      let '(r, ws) := construct_bytes (c6_cfg c) blank_obj unescape_checked (gstr b) (gopt gstr fe) (glist gstr ex) in
+      L [c6_cres r; slist c6_warning ws]
   | _, _ => A (-1)
   end.
